@@ -266,6 +266,13 @@ func (s *Scenario) Text(i int) string {
 	case "neg":
 		return "-" + s.Text(n.Args[0])
 	case "paren":
+		if n.Fn == "+" { // unary plus: evaluates to its operand
+			c := s.Plan[n.Args[0]-1]
+			if c.Op == "bin" {
+				return "+(" + s.Text(n.Args[0]) + ")"
+			}
+			return "+" + s.Text(n.Args[0])
+		}
 		return "(" + s.Text(n.Args[0]) + ")"
 	case "fn":
 		var a []string
